@@ -20,3 +20,20 @@ func ZZ_C19_sumvec_newFlpSumVec() {
 		zzAssert(s.Valid.JointRandLen == s.NumGadgetCalls && s.Valid.OutputLen == length, "derived lengths")
 	}
 }
+
+// C19: every element of the encoded measurement is covered by a gadget call of the range check:
+// NumGadgetCalls = ceil(MeasurementLen / chunkLen).  Bound: length < 256, bits <= 64, chunkLen < 256.
+//
+//zz: prop=C19 tier=quick backend=bv timeout=300
+func ZZ_C19_sumvec_gadget_calls_cover_the_measurement() {
+	length, bits, chunk := uint(zzU8("length")), uint(zzU8("bits")), uint(zzU8("chunkLen"))
+	s, err := newFlpSumVec(length, bits, chunk)
+	if err != nil {
+		return
+	}
+	zzReach("constructed")
+	calls := s.NumGadgetCalls
+	zzAssert(s.Valid.MeasurementLen == length*bits, "MeasurementLen = length * bits")
+	zzAssert(calls*chunk >= s.Valid.MeasurementLen && (calls == 0 || (calls-1)*chunk < s.Valid.MeasurementLen), "gadget calls = ceil(MeasurementLen / chunkLen)")
+	zzAssert(s.Valid.JointRandLen == calls, "one joint-randomness element per gadget call")
+}
